@@ -180,6 +180,56 @@ PostK4Mod(f, i, o) ==
         /\ i.bits >= 0 /\ i.bits <= 30 /\ i.v >= 0 /\ i.v < 2 ^ i.bits
         /\ o.r = RevBin(i.v, i.bits)
 
-FunsK4 == FunsK4Toom \cup FunsK4Mod
-PostK4(f, i, o) == IF f \in FunsK4Toom THEN PostK4Toom(f, i, o) ELSE PostK4Mod(f, i, o)
+(* ---------------------------------------------------------------------- FFT: transforms ---- *)
+(* Length 2n, n = 2^depth, modulus p = 2^(nw) + 1 (limbs = n*w/64), root of unity 2^w (order 2n since 2^(nw) = -1).  The radix-2 routines (fft/fft_radix2.c: one layer  *)
+(* of mpir_fft_butterfly "s = i1 + i2, t = (i1 - i2)*2^(i*w)" then both halves with 2w) deliver the values in BIT-REVERSED order: position j holds A(2^(w*rev(j))),          *)
+(* rev over depth+1 bits.  The negacyclic form (fft/fft_negacyclic.c: "first apply twiddle factors corresponding to shifts of w*i/2 bits") evaluates at the odd powers of  *)
+(* z = 2^(w/2) (z = sqrt2^w for odd w): position j holds A(z^(2*rev(j)+1)).  Truncated form (fft/fft_trunc.c, tests/fft/t-fft_ifft_trunc.c): input entries from trunc on   *)
+(* are taken as zero whatever they hold, the first trunc outputs are delivered.  The inverse routines are unnormalised: inverse(forward(x)) = 2n*x (every t-fft_ifft_*.c:   *)
+(* "mpn_div_2expmod_2expp1(ii[i], ii[i], limbs, depth + 1)" before comparing); an inverse alone is specified by: the forward transform of its output is 2n times its input. *)
+LOCAL Tw(k, j, n, w, bits, L, nega) ==
+   LET M == 2 * n * w IN
+   IF ~nega THEN ZPow2((k * w * RevBin(j, bits)) % M)
+   ELSE LET ew == k * (2 * RevBin(j, bits) + 1) * w IN ZMul(ZPow2((ew \div 2) % M), IF ew % 2 = 1 THEN Sqrt2(L) ELSE "1")
+RECURSIVE FwdAt(_, _, _, _, _, _, _, _, _)
+FwdAt(c, cnt, k, j, n, w, bits, L, nega) == IF k = cnt THEN "0" ELSE ZAdd(ZMul(Sg(c[k + 1], L), Tw(k, j, n, w, bits, L, nega)), FwdAt(c, cnt, k + 1, j, n, w, bits, L, nega))
+RECURSIVE BitsSeq(_, _, _, _)
+BitsSeq(x, bits, j, len) == IF j = len THEN <<>> ELSE <<ZLowBits(ZShr(x, j * bits), bits)>> \o BitsSeq(x, bits, j + 1, len)
+RECURSIVE WeightedSum(_, _, _, _)
+WeightedSum(c, bits, j, len) == IF j = len THEN "0" ELSE ZAdd(ZShl(c[j + 1], j * bits), WeightedSum(c, bits, j + 1, len))
+
+FunsK4Fft == {"mpir_fft_radix2", "mpir_ifft_radix2", "mpir_fft_trunc", "mpir_ifft_trunc", "mpir_fft_negacyclic", "mpir_ifft_negacyclic",
+              "mpir_fft_radix2+mpir_ifft_radix2", "mpir_fft_trunc+mpir_ifft_trunc", "mpir_fft_negacyclic+mpir_ifft_negacyclic",
+              "mpir_fft_split_bits", "mpir_fft_combine_bits"}
+PostK4Fft(f, i, o) ==
+   IF f = "mpir_fft_split_bits" THEN
+        \* fft/split_bits.c: "length = (GMP_LIMB_BITS*total_limbs - 1)/bits + 1" coefficients of `bits` bits each, zero-extended to output_limbs + 1 limbs ("mpn_zero(poly[i], output_limbs + 1)").
+        LET len == (W * i.total - 1) \div i.bits + 1 IN
+        /\ i.total >= 1 /\ i.bits >= 1 /\ W * i.out >= i.bits /\ Fits(i.x, i.total)
+        /\ o.len = len /\ o.c = BitsSeq(i.x, i.bits, 0, len)
+   ELSE IF f = "mpir_fft_combine_bits" THEN
+        \* fft/combine_bits.c adds coefficient j at bit j*bits into {res, total_limbs} ("mpn_add(res + skip, res + skip, output_limbs + 1, poly[i], output_limbs)" / the shifted copy for
+        \* non-aligned widths), the result area cleared by the caller, dropping what lies beyond total_limbs; tests/fft/t-split_combine_bits.c: combine(split(x)) = x.  Coefficients < B^output_limbs.
+        /\ Len(i.c) = i.len /\ \A j \in 1..i.len : Fits(i.c[j], i.out)
+        /\ o.r = ZLowBits(WeightedSum(i.c, i.bits, 0, i.len), W * i.total)
+   ELSE
+   LET L == i.limbs  n == i.n  cnt == 2 * i.n  bits == i.depth + 1
+       nega == f \in {"mpir_fft_negacyclic", "mpir_ifft_negacyclic"}
+       tr == IF "trunc" \in DOMAIN i THEN i.trunc ELSE cnt
+       two_n == ZFromInt(cnt) IN
+   /\ n = 2 ^ i.depth /\ i.w >= 1 /\ n * i.w = W * L /\ L >= 1 /\ tr >= 1 /\ tr <= cnt /\ tr % 2 = 0 /\ (nega => n >= 2)
+   /\ Len(o.r) = tr /\ \A j \in 1..tr : Raw(o.r[j], L)
+   /\ \A j \in 1..Len(i.c) : Raw(i.c[j], L)
+   /\ CASE f \in {"mpir_fft_radix2", "mpir_fft_trunc", "mpir_fft_negacyclic"} ->
+             /\ Len(i.c) = cnt
+             /\ \A j \in 0..(tr - 1) : CongP(Sg(o.r[j + 1], L), FwdAt(i.c, tr, 0, j, n, i.w, bits, L, nega), L)
+        [] f \in {"mpir_ifft_radix2", "mpir_ifft_trunc", "mpir_ifft_negacyclic"} ->
+             /\ Len(i.c) = tr
+             /\ \A j \in 0..(tr - 1) : CongP(FwdAt(o.r, tr, 0, j, n, i.w, bits, L, nega), ZMul(two_n, Sg(i.c[j + 1], L)), L)
+        [] OTHER ->
+             /\ Len(i.c) = tr
+             /\ \A j \in 1..tr : CongP(Sg(o.r[j], L), ZMul(two_n, Sg(i.c[j], L)), L)
+
+FunsK4 == FunsK4Toom \cup FunsK4Mod \cup FunsK4Fft
+PostK4(f, i, o) == IF f \in FunsK4Toom THEN PostK4Toom(f, i, o) ELSE IF f \in FunsK4Mod THEN PostK4Mod(f, i, o) ELSE PostK4Fft(f, i, o)
 =============================================================================
